@@ -7,6 +7,7 @@ import (
 	"os"
 	"regexp"
 	"strconv"
+	"time"
 	"strings"
 	"sync"
 
@@ -156,6 +157,9 @@ type Runner struct {
 	Prefilter bool
 }
 
+// MaxPackBytes bounds the source size of a packed program (sum of the cases' own renderings).
+var MaxPackBytes = 16000
+
 // CrossEvery: every CrossEvery-th pack is compiled both in-process and by the binary.
 var CrossEvery = 16
 
@@ -264,7 +268,14 @@ func (r *Runner) Observe(cases []*Case, target string, want func(i int) *Obs) []
 	// because some of its members do not compile. A case the front end rejects is reported as
 	// rejected; with an expectation (want) it is re-decided by the ferret binary first.
 	rejected := make([]bool, len(cases))
+	tPre := time.Now()
+	defer func() {
+		if r.Prefilter {
+			r.C.Count("observe_seconds", int64(time.Since(tPre).Seconds()))
+		}
+	}()
 	if fast && r.Prefilter {
+		defer func(t time.Time) {}(tPre)
 		r.R.FrontEnd(len(cases), func(i int) string { return fl.Render(cases[i].P) }, func(i int, ok bool, msg string) {
 			if ok {
 				return
@@ -273,8 +284,12 @@ func (r *Runner) Observe(cases []*Case, target string, want func(i int) *Obs) []
 			res[i] = Obs{Reject: CanonErr(msg)}
 		})
 	}
+	if fast && r.Prefilter {
+		r.C.Count("prefilter_seconds", int64(time.Since(tPre).Seconds()))
+	}
 	var packs [][]int
 	var cur []int
+	curBytes := 0
 	for i, k := range cases {
 		if rejected[i] {
 			continue
@@ -283,10 +298,18 @@ func (r *Runner) Observe(cases []*Case, target string, want func(i int) *Obs) []
 			packs = append(packs, []int{i})
 			continue
 		}
+		// a pack is closed at PackSize cases or MaxPackBytes of source, whichever comes first:
+		// the compiler's lexer is quadratic in the size of a file
+		sz := len(fl.Render(k.P))
+		if len(cur) > 0 && curBytes+sz > MaxPackBytes {
+			packs = append(packs, cur)
+			cur, curBytes = nil, 0
+		}
 		cur = append(cur, i)
+		curBytes += sz
 		if len(cur) == r.PackSize {
 			packs = append(packs, cur)
-			cur = nil
+			cur, curBytes = nil, 0
 		}
 	}
 	if len(cur) > 0 {
@@ -378,8 +401,8 @@ func (r *Runner) Observe(cases []*Case, target string, want func(i int) *Obs) []
 	if want != nil {
 		var rej []int
 		for i := range cases {
-			if rejected[i] {
-				rej = append(rej, i)
+			if rejected[i] && cases[i].Tag != "may-reject" {
+				rej = append(rej, i) // (a case that may be rejected needs no second opinion)
 			}
 		}
 		vl.ParDo(len(rej), 8, func(j int) {
